@@ -143,7 +143,8 @@ Definition violations12 (c : c12case) (obs : list Z) : list Z :=
   | CJson fs lits, l :: r :: kinds =>
       if Z.eqb l 1 && negb (Z.eqb r 1) then
         let scal := existsb (fun p => match f_type (lf (fst p)) with
-                                      | TJson => Z.leb 1 (snd p) && Z.leb (snd p) 5
+                                      | TJson => (Z.leb 1 (snd p) && Z.leb (snd p) 5) ||
+                                                 (Z.eqb (snd p) 0 && negb (f_nullable (lf (fst p))))   (* the text "null" *)
                                       | _ => false end) (combine fs kinds) in
         if scal then [2] else [0]
       else []
